@@ -97,6 +97,28 @@ DESC = {
              "choices given as a range with step > 1: most drawn values are not among the choices"),
  "S-C16-8": ("grow() returns early ('already grown') when the batch's result file exists",
              "explicitly requested batch ids whose results already exist: the job evaluates nothing, the old results stay"),
+ "S-C01-9": ("combo_runner_core expands the grid through an lru_cache'd helper keyed on the value tuples (hash / ==)",
+             "two sweeps in one process whose grids are equal but differently typed ([1, 2] then [1.0, 2.0]): the second is run with the first one's objects - the function receives int where float was given"),
+ "S-C04-9": ("Sower.__call__ replaces numpy-scalar keyword arguments by .item()",
+             "values of a non-default numpy dtype (float32, uint8, ...) whose arithmetic differs from the builtin's: grown batches compute with builtin types, a direct sweep with the numpy scalars"),
+ "S-C05-9": ("Harvester.add_ds default policy swallows a MergeError when old-first and new-first results are np.allclose",
+             "a conflicting re-harvest whose values differ by less than rtol 1e-5: merged silently, new values dropped"),
+ "S-C06-9": ("Crop.reap_harvest passes the dataset of a case-sown crop through trimna before add_ds",
+             "a case whose outputs are all nan and whose coordinate value no other case shares: that label is missing from the harvester's file (present after a direct harvest_cases)"),
+ "S-C08-9": ("grow(): results_it = map(lambda case: fn(**case), cases) instead of a generator expression",
+             "a function that fails with StopIteration: map lets it end the loop, the short result tuple is published and the batch counts as finished"),
+ "S-C09-9": ("Crop.finished_results(): the listing of results/ is cached on the Crop object and refreshed only when the directory's mtime changed; Reaper._load uses it",
+             "the same Crop object partially reaps twice and a batch finishes in between within one timestamp tick: the new batch is shown as missing"),
+ "S-C10-9": ("sow_combos(shuffle=True) draws a fresh random seed at every sow (stored in the settings, reused by reap)",
+             "reap killed inside delete_all after batches/ went and before results/: the recovery re-sows with another seed, kept results no longer match, the reap returns values at wrong coordinates"),
+ "S-C11-9": ("write_to_disk sweeps '<final>.*.tmp' files after its own rename",
+             "the same batch grown by two growers: one deletes the other's temporary, that grower fails with FileNotFoundError and its remaining batches are never grown"),
+ "S-C12-9": ("Harvester.add_ds default policy snaps new float values to stored ones where np.isclose(rtol=1e-12) - leaving the default atol=1e-8 in force",
+             "a harvester reap whose values conflict with stored ones by less than 1e-8 + 1e-12*|old|: no MergeError, old values kept, crop deleted"),
+ "S-C15-9": ("Crop.load_info caches the settings file on the Crop object for ever",
+             "the same Crop object used for a second sow_samples / grow / reap cycle: the reap pairs the new results with the first cycle's cached cases"),
+ "S-C16-9": ("_SLURM_HEADER gains 'mkdir -p <outdir>' and an --output directive before {header_options}",
+             "slurm array scripts: sbatch stops reading #SBATCH lines at the first command, so the --array directive after it is a plain comment - bash with a stub task id still works"),
 }
 rows = collections.defaultdict(dict)
 own = {}
